@@ -402,6 +402,14 @@ def call_builtin(self, name, pos, kw, node, fr):
         if self.quantity_plain and ta is not None and ta.kind == 'ext' and ta.args[0].endswith('Quantity'):
             return FALSE
         xa = pos[0].single_atom()
+        if xa is not None and xa.kind == 'sym' and xa.args[0] in T.SYMKIND:
+            names = set()
+            for a in T.all_atoms(pos[1]).values():
+                if a.kind in ('builtin', 'ext'):
+                    names.add(a.args[0].split('.')[-1])
+            k = T.SYMKIND[xa.args[0]]
+            want = {'array': {'list', 'ndarray'}, 'scalar': {'int', 'float'}, 'callable': set()}[k]
+            return TRUE if (names & want) else FALSE
         if xa is not None and xa.kind == 'closure':
             return FALSE
         if xa is not None and xa.kind == 'new':
@@ -414,6 +422,8 @@ def call_builtin(self, name, pos, kw, node, fr):
         xa = pos[0].single_atom()
         if xa is not None and xa.kind in ('closure', 'func', 'boundmethod'):
             return TRUE
+        if xa is not None and xa.kind == 'sym' and xa.args[0] in T.SYMKIND:
+            return TRUE if T.SYMKIND[xa.args[0]] == 'callable' else FALSE
         if pos[0].const() is not None or (xa is not None and xa.kind in ('tuple', 'list', 'str', 'none')):
             return FALSE
         return T.mk_call('callable', pos)
